@@ -353,12 +353,13 @@ def run_fault(ctx, exe, tier, seed):
     chosen = list(names)
     skipped = []
     if tier == "quick":
-        # budget: measured on this 16-core box (while it was heavily loaded by
-        # other checks) ~8 ms of driver time per fault point plus ~0.3 ms of
-        # TLC time per event, both already divided by the parallelism; keep
-        # the cheapest scripts, each exhaustively over k, if not all fit
+        # budget: measured on this 16-core box, with all cores shared with
+        # other checks (load average 90..250): 33..95 s for 7 307 fault
+        # points / 194 267 events, i.e. about 5 ms of driver time per fault
+        # point plus 0.2 ms of TLC time per event, parallelism included.
+        # Keep the cheapest scripts, each exhaustively over k, if not all fit.
         def est(s):
-            return counts[s] * (0.008 + 0.0003 * (stats["steps"][s] + 3))
+            return counts[s] * (0.005 + 0.0002 * (stats["steps"][s] + 3))
         total = 0.0
         chosen = []
         for s in sorted(names, key=est):
